@@ -161,7 +161,3 @@ func hhmmCall(g *G, op string, n int) callSpec {
 	return cs
 }
 
-// runC07: argument tuples from the whole argument space (in and out of the accepted domain)
-func runC07(o *opts) (*summary, error) {
-	return nil, nil
-}
